@@ -698,6 +698,11 @@ static int32 tls13WriteServerHello(ssl_t *ssl, sslBuf_t *out,
         return rc;
     }
     extData = psDynBufDetachPsSize(&extBuf, &extDataLen);
+    if (extData == NULL)
+    {
+        psDynBufUninit(&shBuf);
+        return PS_MEM_FAIL;
+    }
 
     /* Extension extensions<6..2^16-1> */
     psDynBufAppendTlsVector(&shBuf,
@@ -711,6 +716,10 @@ static int32 tls13WriteServerHello(ssl_t *ssl, sslBuf_t *out,
 
     psDynBufUninit(&extBuf);
     psDynBufUninit(&shBuf);
+    if (shData == NULL)
+    {
+        return PS_MEM_FAIL;
+    }
 
     /* Wrap into Handshake and TLSPlaintext. */
     rc = makeHsRecord(ssl,
@@ -815,6 +824,10 @@ static int32_t tls13WriteEncryptedExtensions(ssl_t *ssl, sslBuf_t *out)
     }
 
     extensionData = psDynBufDetachPsSize(&eeBuf, &extensionDataLen);
+    if (extensionData == NULL)
+    {
+        return PS_MEM_FAIL;
+    }
     psDynBufInit(ssl->hsPool, &eeBuf, ENCRYPTED_EXTENSIONS_SIZE_EST);
     /* Extension extensions<0..2^16-1>; */
     psDynBufAppendTlsVector(&eeBuf,
@@ -823,6 +836,10 @@ static int32_t tls13WriteEncryptedExtensions(ssl_t *ssl, sslBuf_t *out)
             extensionDataLen);
     psFree(extensionData, ssl->hsPool);
     eeData = psDynBufDetachPsSize(&eeBuf, &eeLen);
+    if (eeData == NULL)
+    {
+        return PS_MEM_FAIL;
+    }
 
     /* Wrap into Handshake, TLSPlaintext, TLSInnerPlaintext and
        TLSCiphertext. But don't encrypt yet. */
@@ -1071,12 +1088,17 @@ static int32 tls13WriteCertificate(ssl_t *ssl, sslBuf_t *out)
                     &extBuf);
             if (rc < 0)
             {
+                psDynBufUninit(&extBuf);
+                psDynBufUninit(&certListBuf);
+                psDynBufUninit(&certBuf);
                 return rc;
             }
 
             extData = psDynBufDetach(&extBuf, &extDataLen);
             if (extData == NULL)
             {
+                psDynBufUninit(&certListBuf);
+                psDynBufUninit(&certBuf);
                 ssl->err = SSL_ALERT_INTERNAL_ERROR;
                 return MATRIXSSL_ERROR;
             }
@@ -1099,6 +1121,7 @@ static int32 tls13WriteCertificate(ssl_t *ssl, sslBuf_t *out)
     certList = psDynBufDetachPsSize(&certListBuf, &certListLen);
     if (certList == NULL)
     {
+        psDynBufUninit(&certBuf);
         ssl->err = SSL_ALERT_INTERNAL_ERROR;
         return PS_MEM_FAIL;
     }
@@ -1161,6 +1184,7 @@ static int32 tls13WriteCertificateVerify(ssl_t *ssl, sslBuf_t *out)
     if (chosenSigAlg == 0 || hmacLen < 0)
     {
         psTraceErrr("Failed to negotiate CertificateVerify sig alg\n");
+        psDynBufUninit(&cvBuf);
         ssl->err = SSL_ALERT_HANDSHAKE_FAILURE;
         return SSL_SEND_RESPONSE;
     }
@@ -1179,6 +1203,7 @@ static int32 tls13WriteCertificateVerify(ssl_t *ssl, sslBuf_t *out)
         rc = tls13TranscriptHashSnapshot(ssl, trHash);
         if (rc < 0)
         {
+            psDynBufUninit(&cvBuf);
             return rc;
         }
 
@@ -1208,6 +1233,7 @@ static int32 tls13WriteCertificateVerify(ssl_t *ssl, sslBuf_t *out)
                 &ssl->sec.tls13CvSigLen);
         if (rc < 0)
         {
+            psDynBufUninit(&cvBuf);
             return rc;
         }
 
@@ -1252,7 +1278,9 @@ static int32 tls13WriteCertificateVerify(ssl_t *ssl, sslBuf_t *out)
             if (rc < 0)
             {
                 psFree(ssl->sec.tls13CvSig, ssl->hsPool);
-                psFree(ssl->hsPool, tbs);
+                ssl->sec.tls13CvSig = NULL;
+                ssl->sec.tls13CvSigLen = 0;
+                psDynBufUninit(&cvBuf);
                 psTraceErrr("Could not verify own sig!!\n");
                 return rc;
             }
@@ -1458,6 +1486,7 @@ int32_t tls13WriteNewSessionTicket(ssl_t *ssl, sslBuf_t *out)
             &ticketLen);
     if (rc < 0)
     {
+        psDynBufUninit(&nstBuf);
         goto out_internal_error;
     }
 
@@ -1482,9 +1511,16 @@ int32_t tls13WriteNewSessionTicket(ssl_t *ssl, sslBuf_t *out)
         rc = tls13WriteEarlyData(ssl, &extBuf, ssl->tls13SessionMaxEarlyData);
         if (rc < 0)
         {
+            psDynBufUninit(&extBuf);
+            psDynBufUninit(&nstBuf);
             return rc;
         }
         extData = psDynBufDetachPsSize(&extBuf, &extDataLen);
+        if (extData == NULL)
+        {
+            psDynBufUninit(&nstBuf);
+            goto out_internal_error;
+        }
     }
     psDynBufAppendTlsVector(&nstBuf,
             0, (1 << 16) - 1,
@@ -1550,6 +1586,7 @@ static inline
 void tls13ClearHsTemporaryState(ssl_t *ssl)
 {
     psFree(ssl->sec.tls13CvSig, ssl->hsPool);
+    ssl->sec.tls13CvSig = NULL;
     Memset(&ssl->sec.tls13KsState, 0, sizeof(ssl->sec.tls13KsState));
 }
 
@@ -2404,7 +2441,12 @@ int32 tls13WriteClientHello(ssl_t *ssl, sslBuf_t *out,
        for future HRR responses and TLS <1.3 renegotiations. */
     if (!ssl->tls13IncorrectDheKeyShare)
     {
-        psAddUserExtToSession(ssl, userExt);
+        rc = psAddUserExtToSession(ssl, userExt);
+        if (rc < 0)
+        {
+            psDynBufUninit(&chBuf);
+            return rc;
+        }
     }
 
     /* ProtocolVersion legacy_version == 0x0303 */
@@ -2473,6 +2515,8 @@ int32 tls13WriteClientHello(ssl_t *ssl, sslBuf_t *out,
             if (ssl->tls13ClientCipherSuites == NULL)
             {
                 psTraceErrr("Out of mem in tls13WriteClientHello\n");
+                psDynBufUninit(&ciphersBuf);
+                psDynBufUninit(&chBuf);
                 goto out_internal_error;
             }
             for (i = 0; i < cipherSpecsLen; i++)
@@ -2529,6 +2573,11 @@ int32 tls13WriteClientHello(ssl_t *ssl, sslBuf_t *out,
         return rc;
     }
     data = psDynBufDetachPsSize(&extBuf, &dataLen);
+    if (data == NULL)
+    {
+        psDynBufUninit(&chBuf);
+        return PS_MEM_FAIL;
+    }
     /* Extension extensions<6..2^16-1> */
     psDynBufAppendTlsVector(&chBuf,
             6, (1 << 16) - 1,
@@ -2538,6 +2587,10 @@ int32 tls13WriteClientHello(ssl_t *ssl, sslBuf_t *out,
 
     /* Now have the full ClientHello in chBuf. */
     data = psDynBufDetachPsSize(&chBuf, &dataLen);
+    if (data == NULL)
+    {
+        return PS_MEM_FAIL;
+    }
 
     messageSize = ssl->recordHeadLen + ssl->hshakeHeadLen + dataLen;
     if (messageSize > SSL_MAX_BUF_SIZE)
